@@ -200,6 +200,12 @@ class Sym:
         with NoTracing():
             return realize(v)
 
+    def untraced(self, fn):
+        """run fn() with the tracer off: for work on fully CONCRETE (already realised) values only, where
+        symbolic execution has nothing to decide and would just slow the path down"""
+        with NoTracing():
+            return fn()
+
     def constrain_any(self, conds):
         """add the DISJUNCTION of comparisons on symbolic values to the path condition without forking"""
         with NoTracing():
